@@ -26,6 +26,52 @@ pub struct Unit {
     /// `last` drops values by design: no ledger clause
     #[serde(default)]
     pub no_ledger: bool,
+    /// clause (c): removing any single item of an accepted vector changes the outcome
+    #[serde(default)]
+    pub removal: bool,
+}
+
+/// optional / repeated NON-adjacent groups whose later member gives up with a catchable error
+/// after the first member has consumed: `[--files FILE...]`, `[-n NAME(non-strict)]`, groups
+/// ending in a failing `pure_with` / `fail`
+pub fn loose_groups() -> Vec<(Opts, Vec<Tok>)> {
+    let mut out = vec![];
+    let firsts = [P::ReqFlag(Names::long("files")), P::arg(Names::both('n', "name"), Ty::Os)];
+    let seconds = [
+        P::pos(Ty::Os).some(),
+        P::Pos { ty: Ty::Os, strict: Strict::NonStrict, metavar: "POS".into(), help: None },
+        P::Pos { ty: Ty::Os, strict: Strict::Strict, metavar: "POS".into(), help: None },
+        P::PureWith(Err("never".into())),
+        P::Fail("never".into()),
+    ];
+    for first in &firsts {
+        for second in &seconds {
+            for w in 0..4 {
+                let g = P::Seq(vec![first.clone(), second.clone()]);
+                let g = match w {
+                    0 => g.opt(),
+                    1 => g.many(),
+                    2 => P::Collect(g.bx(), false),
+                    _ => g.some(),
+                };
+                let mut alpha = toks(&["v", "w", "--", "-a"]);
+                match first {
+                    P::ReqFlag(_) => alpha.push(Tok::s("--files")),
+                    _ => alpha.extend(toks(&["--name", "-n=v", "-nw"])),
+                }
+                for nb in 0..3 {
+                    let sw = P::Switch(Names::short('a'));
+                    let fields = match nb {
+                        0 => vec![g.clone()],
+                        1 => vec![sw, g.clone()],
+                        _ => vec![g.clone(), sw],
+                    };
+                    out.push((Opts::new(P::Seq(fields)), alpha.clone()));
+                }
+            }
+        }
+    }
+    out
 }
 
 const MARKERS: [&str; 6] = ["DEF", "DEFB", "on", "off", "nocmd", "absent"];
@@ -83,6 +129,26 @@ pub fn check_accepted(unit: &Value, u: &Unit, p: &bpaf::OptionParser<Val>, t: &T
             }
         }
     }
+    // (c) every item matters: without it the outcome differs
+    if u.removal && (only.is_none() || only == Some("removed")) {
+        for i in 0..argv.len() {
+            if argv[i].0 == b"--" {
+                continue;
+            }
+            let mut v2 = argv.to_vec();
+            v2.remove(i);
+            ctx.begin_case(|| json!({"argv": v2}));
+            ctx.s.evaluations += 1;
+            ctx.s.transitions += 1;
+            ctx.count("removals-checked");
+            let r = run(p, &v2);
+            if r == Outcome::Value(val.clone()) {
+                ctx.violation(viol("every-item-is-used", &u.family, "removed", unit, argv, &v2, format!("an outcome other than the one of the full line ({:?}): the removed item {} was used", val, argv[i].enc()), &r));
+            }
+        }
+    }
+    let loose = u.family.starts_with("loose");
+    let seg = if loose { None } else { seg };
     // (b) foreign items
     let mut try_ins = |what: &str, ins: &[Tok], ctx: &mut Ctx| {
         if let Some(o) = only {
@@ -108,11 +174,13 @@ pub fn check_accepted(unit: &Value, u: &Unit, p: &bpaf::OptionParser<Val>, t: &T
     for (l, info) in &t.longs {
         if !info.is_arg {
             try_ins("flag-with-value", &[Tok::s(&format!("--{}=x", l))], ctx);
+            try_ins("flag-with-empty-value", &[Tok::s(&format!("--{}=", l))], ctx);
         }
     }
     for (s, info) in &t.shorts {
         if !info.is_arg {
             try_ins("short-flag-with-value", &[Tok::s(&format!("-{}=x", s))], ctx);
+            try_ins("short-flag-with-empty-value", &[Tok::s(&format!("-{}=", s))], ctx);
         }
     }
     if let Some(seg) = &seg {
@@ -148,11 +216,11 @@ impl Check for C05 {
         let (n, len) = tier.pick((2, 4), (2, 5));
         for o in shapes(1, seed).into_iter().chain(shapes(n, seed)) {
             let nl = has_last(&o.p);
-            out.push(serde_json::to_value(Unit { opts: o, len, family: "shapes".into(), alpha: vec![], no_ledger: nl }).unwrap());
+            out.push(serde_json::to_value(Unit { opts: o, len, family: "shapes".into(), alpha: vec![], no_ledger: nl, removal: !nl }).unwrap());
         }
         if tier == Tier::Thorough {
             for o in shapes(3, seed) {
-                out.push(serde_json::to_value(Unit { opts: o, len: 4, family: "shapes3".into(), alpha: vec![], no_ledger: false }).unwrap());
+                out.push(serde_json::to_value(Unit { opts: o, len: 4, family: "shapes3".into(), alpha: vec![], no_ledger: false, removal: true }).unwrap());
             }
         }
         let mut tails = vec![Tail::None];
@@ -162,11 +230,14 @@ impl Check for C05 {
             let alpha = alphabet(&l, AlphaStyle::Compact);
             let o = l.to_opts();
             let nl = has_last(&o.p);
-            out.push(serde_json::to_value(Unit { opts: o, len: tier.pick(3, 4), family: "conventional".into(), alpha, no_ledger: nl }).unwrap());
+            out.push(serde_json::to_value(Unit { opts: o, len: tier.pick(3, 4), family: "conventional".into(), alpha, no_ledger: nl, removal: !nl }).unwrap());
         }
         for (o, fam) in crate::checks::c19::group_shapes(seed) {
             let alpha = crate::checks::c19::group_alphabet(&o);
-            out.push(serde_json::to_value(Unit { opts: o, len: tier.pick(4, 5), family: fam, alpha, no_ledger: true }).unwrap());
+            out.push(serde_json::to_value(Unit { opts: o, len: tier.pick(4, 5), family: fam, alpha, no_ledger: true, removal: true }).unwrap());
+        }
+        for (o, alpha) in loose_groups() {
+            out.push(serde_json::to_value(Unit { opts: o, len: tier.pick(4, 5), family: "loose-group".into(), alpha, no_ledger: true, removal: true }).unwrap());
         }
         out
     }
@@ -216,7 +287,7 @@ impl Check for C05 {
         }
     }
     fn rule(&self) -> String {
-        "definitions = shape family (12 field kinds, ordered tuples x 4 tails), conventional family, adjacent group / adjacent command shapes; accepted vectors are discovered by walking the whole token tree; for EVERY accepted vector: ledger (multiset of value leaves == multiset of value items of the line) and every single insertion at every position left of `--` of: -z, --zz, --flag=x / -f=x for each declared flag, a second copy of each present single-use option, a surplus word when the positional capacity is finite and full -> each must be an stderr failure; evaluation = one run; non-trivial = accepted non-empty vector".into()
+        "definitions = shape family (12 field kinds, ordered tuples x 4 tails), conventional family, adjacent group / adjacent command shapes, loose (non-adjacent) optional / repeated groups whose later member gives up after the first consumed; accepted vectors are discovered by walking the whole token tree; for EVERY accepted vector: ledger (multiset of value leaves == multiset of value items of the line) and every single insertion at every position left of `--` of: -z, --zz, --flag=x / -f=x / --flag= / -f= for each declared flag, a second copy of each present single-use option, a surplus word when the positional capacity is finite and full -> each must be an stderr failure; and removal of any single item (other than `--`) must change the outcome (the item was used); evaluation = one run; non-trivial = accepted non-empty vector".into()
     }
     fn bounds(&self, tier: Tier) -> Value {
         json!({"fields_per_level": tier.pick("<=2 + tail", "<=3 + tail"), "base_vector_length": tier.pick("4 (shapes, groups), 3 (conventional)", "5 / 4"), "insertions": "one item, every position"})
